@@ -281,6 +281,75 @@ def run(repo: Repo, rep: Report, tier: str) -> None:
                           f"`{a17[:80]}` drops the directory: `import helper.facto` in dir/main.facto is then looked up in the working directory — not found, or another file of that name is included", f17.loc(call17))
     rep.floor("C17-R8", "file-derived source names handed to the parser", n17, 1)
 
+    # ---------------- R9 ---------------------------------------------------------------
+    rep.rule("C17-R9", "library contracts hold for all 32-bit arguments: no library function tests the sign or size of a product of two unbounded signals (parameters of type Signal "
+             "or values derived from them without a bound) — such a product wraps, and `a * b < 0` is not `the signs differ`")
+    from lark import Tree as _T9, Token as _K9
+    from ..facto import parse_facto as _pf9, functions as _fn9
+
+    def _collapse(t):
+        """strip single-child wrapper rules"""
+        while isinstance(t, _T9) and len([c for c in t.children if c is not None]) == 1:
+            t = [c for c in t.children if c is not None][0]
+        return t
+
+    def _unbounded(t, env):
+        t = _collapse(t)
+        if isinstance(t, _K9):
+            return env.get(str(t), False)
+        if isinstance(t, _T9):
+            if t.data == "lvalue":
+                return env.get(str(t.children[0]), False)
+            if t.data in ("comparison", "logic_and", "logic_or", "output_spec") and len([c for c in t.children if c is not None]) > 1:
+                return False  # 0/1 results and selections are handled through their parts
+            return any(_unbounded(c, env) for c in t.children if c is not None)
+        return False
+
+    n_fn9 = n_prod9 = 0
+    for lib in ("lib/math.facto", "lib/memory_patterns.facto"):
+        try:
+            tree9 = _pf9(repo, lib)
+        except AnalysisError:
+            continue
+        for fname9, (params9, stmts9) in _fn9(tree9).items():
+            n_fn9 += 1
+            env9 = {p: (ty == "Signal") for ty, p in params9}
+            wrapping: set[str] = set()
+            for st in stmts9:
+                for node in st.iter_subtrees_topdown():
+                    if node.data == "decl_stmt" and len(node.children) >= 3 and isinstance(node.children[1], _K9):
+                        nm = str(node.children[1])
+                        val = node.children[2]
+                        muls = [m for m in val.find_data("mul") if any(isinstance(c, _K9) and str(c) == "*" for c in m.children)]
+                        is_prod = any(sum(1 for c in m.children if not isinstance(c, _K9) and c is not None and _unbounded(c, env9)) >= 2 for m in muls)
+                        if is_prod:
+                            wrapping.add(nm)
+                            n_prod9 += 1
+                        env9[nm] = _unbounded(val, env9)
+                for cmp in st.find_data("comparison"):
+                    kids = [c for c in cmp.children if c is not None]
+                    if len(kids) < 3:
+                        continue
+                    sides = [_collapse(kids[0]), _collapse(kids[-1])]
+                    def _is_wrap(s_):
+                        if isinstance(s_, _K9) and str(s_) in wrapping:
+                            return True
+                        if isinstance(s_, _T9) and s_.data == "lvalue" and str(s_.children[0]) in wrapping:
+                            return True
+                        if isinstance(s_, _T9):
+                            return any(any(isinstance(c, _K9) and str(c) == "*" for c in m.children) and sum(1 for c in m.children if not isinstance(c, _K9) and c is not None and _unbounded(c, env9)) >= 2
+                                       for m in ([s_] if s_.data == "mul" else list(s_.find_data("mul"))))
+                        return False
+                    def _is_const(s_):
+                        return (isinstance(s_, _K9) and str(s_).lstrip("-").isdigit()) or (isinstance(s_, _T9) and not list(s_.find_data("lvalue")) and not list(s_.find_data("call_expr")))
+                    if (_is_wrap(sides[0]) and _is_const(sides[1])) or (_is_wrap(sides[1]) and _is_const(sides[0])):
+                        rep.bad("C17-R9", f"{lib}: {fname9} compares a product of two unbounded signals with a constant",
+                                "the product wraps to 32 bits: for a = b = 65536 it is 0, for a = 65536, b = 32768 it is negative although both are positive — the function's documented result is "
+                                "wrong for large arguments", f"{lib}:{getattr(cmp.meta, 'line', 1) if hasattr(cmp, 'meta') else 1}")
+    rep.floor("C17-R9", "library functions inspected for wrapping products", n_fn9, 10)
+    if not any(o.rule == "C17-R9" for o in rep.obs):
+        rep.ok("C17-R9", "no library function tests the sign of a wrapping product", f"{n_fn9} functions, {n_prod9} products of two unbounded signals, none compared with a constant", "lib/math.facto:1")
+
 
 
 def _split_entries(s: str) -> list[str]:
